@@ -87,10 +87,10 @@ theorem tblWf_iff (n : Net) (h : tblWf n = true) : TblWF n := by
 
 theorem wf_iff (n : Net) (h : wf n = true) :
     TblWF n ∧ (∀ b ∈ n.buses, busWf n.t b = true) ∧ (n.buses.map (·.e.id)).Nodup ∧
-    (ifaceKeys n).Nodup ∧ (msgIds n).Nodup := by
+    (ifaceKeys n).Nodup ∧ (msgIds n).Nodup ∧ ((netOwners n).map (·.1)).Nodup := by
   simp only [wf, Bool.and_eq_true, nodupB, decide_eq_true_eq, List.all_eq_true] at h
-  obtain ⟨⟨⟨⟨h1, h2⟩, h3⟩, h4⟩, h5⟩ := h
-  exact ⟨tblWf_iff n h1, h2, h3, h4, h5⟩
+  obtain ⟨⟨⟨⟨⟨h1, h2⟩, h3⟩, h4⟩, h5⟩, h6⟩ := h
+  exact ⟨tblWf_iff n h1, h2, h3, h4, h5, h6⟩
 
 theorem inRange_iff (n : Net) (h : inRange n = true) :
     (∀ b ∈ n.buses, busInRange b = true) ∧
@@ -139,7 +139,7 @@ theorem save_e (n : Net) : (save n).e = n.e := rfl
 
 theorem load_save_aux (n : Net) (hw : wf n = true) (hi : inRange n = true) :
     load (save n) = .ok (norm n) := by
-  obtain ⟨ht, hb, hbid, hkeys, hmids⟩ := wf_iff n hw
+  obtain ⟨ht, hb, hbid, hkeys, hmids, hown⟩ := wf_iff n hw
   obtain ⟨ib, iops, inodes⟩ := inRange_iff n hi
   -- the tables the loader builds
   have hattrs : loadAttrs (save n).attrs = .ok ((sortBy attrLe n.t.attrs).map normAttr) := by
@@ -213,8 +213,10 @@ theorem load_save_aux (n : Net) (hw : wf n = true) (hi : inRange n = true) :
   have hperm := sortBy_perm busLe n.buses
   have hbuses : loadBuses (normTbl n.t) {} [] (save n).buses = .ok ((sortBy busLe n.buses).map (normBus n.t)) := by
     rw [save_buses]
-    apply loadBuses_map hrel [] [] {} [] (sortBy busLe n.buses) ⟨by simp, by simp, by simp⟩
-    · exact fun b hb' => ⟨hb b (mem_sortBy.mp hb'), ib b (mem_sortBy.mp hb')⟩
+    apply loadBuses_map hrel (Seen.owner (netOwners n)) [] [] {} [] (sortBy busLe n.buses)
+      ⟨by simp, by simp, by simp, by simp, Agrees.nil _⟩
+    · exact fun b hb' => ⟨hb b (mem_sortBy.mp hb'), ib b (mem_sortBy.mp hb'),
+        fun q hq => owner_of_mem hown (List.mem_flatMap.mpr ⟨b, mem_sortBy.mp hb', hq⟩)⟩
     · exact nodup_map_sortBy _ _ hbid
     · simp
     · exact ((hperm.flatMap_right _).nodup_iff).mpr hkeys
